@@ -208,13 +208,6 @@ impl<'a> FullnameSerializer<'a> {
             .iter()
             .any(|(prefix, ns)| *prefix == self.xot.empty_prefix() && *ns != self.xot.no_namespace())
     }
-
-    pub(crate) fn is_namespace_known(&self, namespace_id: NamespaceId) -> bool {
-        self.top()
-            .all_namespaces
-            .iter()
-            .any(|(_, ns)| *ns == namespace_id)
-    }
 }
 
 #[cfg(test)]
